@@ -162,6 +162,73 @@ func checkC09(c *Ctx) {
 		}
 	}
 
+	// ---- C09.16 shutdown: the hand-off channel is closed only when no worker can receive from it any more - after the
+	// wait for the workers (a worker that finishes a registration after the close receives the zero message: the
+	// unchecked type assertion on it panics the station in the middle of the stop request)
+	r.Rule("C09.16", "a channel handed to worker goroutines is closed only after the wait for those workers", 1)
+	for _, f := range c.funcsOfPkgs("pkg/station/lib") {
+		if f.Blocks == nil {
+			continue
+		}
+		// channels made here and handed to goroutines started here
+		handed := map[ssa.Value]bool{}
+		eachInstr(f, func(in ssa.Instruction) {
+			if g, ok := in.(*ssa.Go); ok {
+				for _, a := range g.Call.Args {
+					v := a
+					if ct, ok := v.(*ssa.ChangeType); ok {
+						v = ct.X
+					}
+					if _, isMk := v.(*ssa.MakeChan); isMk {
+						handed[v] = true
+					}
+				}
+			}
+		})
+		if len(handed) == 0 {
+			continue
+		}
+		isWait := func(in ssa.Instruction) bool {
+			call, ok := in.(*ssa.Call)
+			return ok && calleeName(&call.Call) == "(*sync.WaitGroup).Wait"
+		}
+		eachInstr(f, func(in ssa.Instruction) {
+			ci, ok := in.(ssa.CallInstruction)
+			if !ok {
+				return
+			}
+			b, isB := ci.Common().Value.(*ssa.Builtin)
+			if !isB || b.Name() != "close" || len(ci.Common().Args) != 1 {
+				return
+			}
+			ch := ci.Common().Args[0]
+			if ct, ok := ch.(*ssa.ChangeType); ok {
+				ch = ct.X
+			}
+			if !handed[ch] {
+				return
+			}
+			if _, isDefer := in.(*ssa.Defer); isDefer {
+				// runs at function exit: every return must come after the wait
+				early, w := reach(f, in, isReturn, isWait, nil)
+				if early {
+					r.Bad("C09.16", fnName(f)+": deferred close of the hand-off channel runs before the workers were waited for", in.Pos(), fnName(f),
+						"a return is reachable without wg.Wait(): the deferred close runs while workers may still receive from the channel - a worker gets the zero message and its type assertion panics", r.blockPath(f, w)...)
+				} else {
+					r.OK("C09.16", fnName(f)+": the hand-off channel is closed (deferred) after the wait for the workers", in.Pos(), "every return after the defer passes wg.Wait()")
+				}
+				return
+			}
+			early, w := reach(f, nil, isInstr(in), isWait, nil)
+			if early {
+				r.Bad("C09.16", fnName(f)+": close of the hand-off channel before the wait for the workers", in.Pos(), fnName(f),
+					"the channel the workers receive from is closed while they may still be running: a worker that returns to its select after the close receives the zero message, and the unchecked type assertion on it panics the station during shutdown", r.blockPath(f, w)...)
+			} else {
+				r.OK("C09.16", fnName(f)+": the hand-off channel is closed after the wait for the workers", in.Pos(), "every path to the close passes wg.Wait()")
+			}
+		})
+	}
+
 	// ---- C09.15 shutdown: a goroutine is counted before it is started - Add inside the goroutine races with Wait
 	r.Rule("C09.15", "no goroutine registers itself with the wait group that waits for it", 1)
 	{
